@@ -105,6 +105,16 @@ def battery(C, modname):
     rec("pickle_only", lambda: [type(pickle.loads(pickle.dumps(z, p))) is C for p in range(2, pickle.HIGHEST_PROTOCOL + 1)])
     for proto in range(2, pickle.HIGHEST_PROTOCOL + 1):
         rec(f"pickle{proto}", lambda p=proto: (pickle.loads(pickle.dumps(z, p)) == z, repr(pickle.loads(pickle.dumps(z, p)))))
+    # non-field instance state (a derived attribute, a warmed cached_property) lives in the instance __dict__ and travels with
+    # copies and pickles; compared only where the slotted class keeps a __dict__ (see run_history)
+    def extra(clone):
+        o = C(*range(100, 100 + n)) if n else C()
+        object.__setattr__(o, "extra_", [5])
+        c = clone(o)
+        return (getattr(c, "extra_", "-"), type(c) is C)
+    rec("copy_extra", lambda: extra(copy.copy))
+    rec("deepcopy_extra", lambda: extra(copy.deepcopy))
+    rec("pickle_extra", lambda: [extra(lambda o, p=p: pickle.loads(pickle.dumps(o, p))) for p in (2, pickle.HIGHEST_PROTOCOL)])
     if fs:
         rec("setattr_field", lambda: (setattr(y, fs[0], 55), repr(y))[1])
         rec("delattr_field", lambda: (delattr(C(), fs[0]), "deleted")[1])
@@ -177,7 +187,8 @@ def run_history(hist, hid, flags, scope, redeclare=False):
             # own slots=True): copying is not compared for it, the hook bookkeeping below still is
             skip = ("copy", "deepcopy", "pickle") if hooks == "get" else ()        # (prefixes: copy_only / pickle_only too)
             ev["mismatch"] = sorted(f"{op}: slotted={bs.get(op)} plain={bp.get(op)}"[:200] for op in set(bs) | set(bp)
-                                    if bs.get(op) != bp.get(op) and not op.startswith(skip or ("\0",)))
+                                    if bs.get(op) != bp.get(op) and not op.startswith(skip or ("\0",))
+                                    and not (op.endswith("_extra") and not ev["hasdict"]))
             ss = Cs.__dict__.get("__setstate__")
             ev["state"] = {"frozen": bool(flags[0]), "hooks": hooks,
                            "effective": "default" if ss is None else
